@@ -196,6 +196,26 @@ pub struct Project {
     pub schema_model: TsDoc,
     /// per operation file: its own document
     pub op_models: Vec<(String, ExecDoc)>,
+    /// the schema is given as one introspection result (JSON) instead of SDL files
+    pub schema_is_json: bool,
+}
+
+/// the same project with its SDL schema files replaced by one introspection JSON file (what a server would answer)
+pub fn introspection_variant(proj: &Project, rng: &mut Rng) -> Project {
+    use crate::introspect::{IntroStyle, introspect};
+    let merged = merge_extensions(&proj.schema_model);
+    let ix = SchemaIx::new(&merged);
+    let style = IntroStyle { full: rng.coin(), meta_types: rng.coin(), shuffle: rng.coin() };
+    let schema_desc = merged.defs.iter().find_map(|d| if let TsDef::Schema(s) = d { s.desc.clone() } else { None });
+    let intro = introspect(&ix, schema_desc.as_ref(), style, rng);
+    let text = if rng.coin() { serde_json::to_string_pretty(&intro).unwrap() } else { intro.to_string() };
+    let is_cfg = |p: &str| p.contains("graphql.config");
+    let mut files: Vec<(String, String)> = proj.files.iter().filter(|(p, _)| !proj.schema_paths.contains(p) && !is_cfg(p)).cloned().collect();
+    let sp = format!("{}/schema/introspection.json", proj.root);
+    files.push((sp.clone(), text));
+    let cfg_path = proj.files.iter().find(|(p, _)| is_cfg(p)).map(|(p, _)| p.clone()).unwrap_or_else(|| format!("{}/graphql.config.yaml", proj.root));
+    files.push((cfg_path, proj.config.render(&["./schema/introspection.json".to_string()], &["./ops/**/*.graphql".to_string(), "./shared/*.graphql".to_string()])));
+    Project { files, root: proj.root.clone(), schema_paths: vec![sp], op_paths: proj.op_paths.clone(), config: proj.config.clone(), schema_model: proj.schema_model.clone(), op_models: proj.op_models.clone(), schema_is_json: true }
 }
 
 pub struct ProjOpts {
@@ -332,5 +352,5 @@ pub fn gen_project(rng: &mut Rng, po: &ProjOpts) -> Option<Project> {
     };
     let cfg_text = config.render(&["./schema/**/*.graphql".to_string(), "./schema/*.graphqls".to_string()], &["./ops/**/*.graphql".to_string(), "./shared/*.graphql".to_string()]);
     files.push((format!("{root}/{}", if config.json_format { "graphql.config.json" } else { "graphql.config.yaml" }), cfg_text));
-    Some(Project { files, root, schema_paths, op_paths, config, schema_model: shaped, op_models })
+    Some(Project { files, root, schema_paths, op_paths, config, schema_model: shaped, op_models, schema_is_json: false })
 }
